@@ -15,7 +15,9 @@
     recursive remove / list / copy / queries on shared paths, GOMAXPROCS 1/2/4/N;
     Trace_MemFSLin.tla decides linearizability with respect to FsTree (every call's
     effect between its call and return, parents created level by level, unique
-    written values so a torn or mixed read matches nothing), with the documented
+    written values so a torn or mixed read matches nothing; a file copy -- also from a
+    source that is being written or stream-written at that moment -- is a read of one
+    complete value followed later by the write of the destination), with the documented
     deviation enabled only where a Remove(dir) overlaps a creation beneath it."""
 import json
 import vlib
@@ -73,4 +75,4 @@ def run(ctx):
             return lines, 'none'
         vlib.selftest_trace_rejects(ctx, 'fs', 'Trace_MemFSLin', 'Trace_MemFSLin_dev.cfg', tf, torn, depthfirst=True)
     ctx.assumptions += ['a goroutine that holds a stream handle calls nothing else on the same file before closing it',
-                        'copies in the concurrent driver read only static source files']
+                        'a file copy is two steps (complete source value read, destination written later), as in the code; only file copies are driven concurrently']
